@@ -11,7 +11,7 @@ import ast
 from .. import flow, order
 from .. import terms as T
 from ..asyncrt import mentions
-from ..compiled import CompiledView
+from ..compiled import CompiledView, input_state_builds
 from ..report import AnalysisError, Check
 from ..symeval import SymEval
 
@@ -170,7 +170,8 @@ def run(chk: Check, model):
         for nn in ast.walk(fi.node):
             if isinstance(nn, ast.Call) and any(k.arg == "alpha" for k in nn.keywords) and isinstance(nn.func, ast.Attribute) and nn.func.attr == "replace":
                 sites.append((q, nn, fi))
-    chk.add("C10.saturate", "alpha replaced only in init_inputs", {q for q, _, _ in sites} == {"node.BaseNode.init_inputs"}, f"alpha is replaced in {sorted({q for q, _, _ in sites})}", "rex/node.py")
+    homes = {h for q, _, _ in sites for h in model.home_functions(q)}  # (a helper introduced for init_inputs counts as init_inputs)
+    chk.add("C10.saturate", "alpha replaced only in init_inputs", homes == {"node.BaseNode.init_inputs"}, f"alpha is replaced in {sorted({q for q, _, _ in sites})}", "rex/node.py")
     f_ii = model.func("node.BaseNode.init_inputs")
     chk.used(f_ii.qualname)
     ri = SymEval(model).run_function(f_ii)
@@ -185,11 +186,11 @@ def run(chk: Check, model):
         ok = ok and flow.implies(g.guard, ("in", T.mk_index(conn[1], T.ZERO), arg[1])) and mentions(g.guard, "TrainableDist")
     chk.add("C10.saturate", "init_inputs looks the delay up under the input's own name", bool(ok), "alpha must come from delay_dist.get_alpha(delays[input_name]) for input_name in delays "
             "(init_delays keys by input name, which differs from the sender's name for shadow inputs)", chk.loc(f_ii))
-    fo = [e for e in ri.events if e.kind == "call" and e.name == "rex.base.InputState.from_outputs"]
-    ok = len(fo) == 1 and gas and len(fo[0].args) == 5
+    fo = input_state_builds(model, ri.events)
+    ok = len(fo) == 1 and gas and "delay_dist" in fo[0][1]
     if ok:
-        dd = fo[0].args[4]
-        g_in = T.assume(gas[0].guard, fo[0].guard, True)  # the branch condition relative to the (unconditional) from_outputs call
+        dd = fo[0][1]["delay_dist"]
+        g_in = T.assume(gas[0].guard, fo[0][0].guard, True)  # the branch condition relative to the (unconditional) from_outputs call
         want_on = T.mk_replace(gas[0].recv, (("alpha", gas[0].term),))
         ok = all(t == (want_on if holds else gas[0].recv) for holds, t in flow.select_cases(dd, g_in))
     chk.add("C10.saturate", "init_inputs stores the saturated alpha", bool(ok), "the input state must carry delay_dist.replace(alpha=get_alpha(...)) (or the configured distribution)", chk.loc(f_ii))
@@ -202,10 +203,13 @@ def run(chk: Check, model):
     f_g = model.func("artificial._generate_graphs")
     chk.used(f_g.qualname)
     rg = SymEval(model).run_function(f_g)
-    st = [e for e in rg.events if e.kind == "store_sub" and e.key is not None and e.key[0] == "tuple" and e.term[0] == "ite" and e.term[1][0] == "call" and e.term[1][1] == "isinstance" and mentions(e.term[1], "TrainableDist")]
+    def _by_class(t):
+        return t[0] == "ite" and t[1][0] == "call" and t[1][1] == "isinstance" and mentions(t[1], "TrainableDist")
+    # (the distribution stored per connection, on its own or next to the connection in one entry)
+    st = [v for e in rg.events if e.kind == "store_sub" and e.key is not None and e.key[0] == "tuple" for v in ((e.term,) + (tuple(e.term[1]) if e.term[0] == "tuple" else tuple(x for _, x in e.term[2]) if e.term[0] == "obj" else ())) if _by_class(v)]
     ok = len(st) == 1
     if ok:
-        v = st[0].term
+        v = st[0]
         conds = [x[1] for x in T.walk(v) if x[0] == "ite" and x[1][0] == "call" and x[1][1] == "isinstance" and mentions(x[1], "TrainableDist")]
         ok = len(conds) == 1
         if ok:
@@ -227,11 +231,11 @@ def run(chk: Check, model):
     f_ui = model.func("partition_runner.make_update_inputs._update_inputs")
     chk.used(f_ui.qualname)
     ads = [e for e in sub.events if e.kind == "call" and e.name.endswith(".apply_delay")]
-    fos = [e for e in sub.events if e.kind == "call" and e.name == "rex.base.InputState.from_outputs"]
+    fos = input_state_builds(model, sub.events)
     ok = len(ads) == 1 and len(fos) == 1 and bool(ads[0].loops)
     if ok:
-        a, fo_ = ads[0], fos[0]
-        prev = dict(fo_.kwargs).get("delay_dist")
+        a, fo_ = ads[0], fos[0][0]
+        prev = fos[0][1].get("delay_dist")
         el = [x for x in T.walk(prev or T.NONE) if x[0] == "elem"]
         ok = prev is not None and bool(el) and prev == T.mk_attr(T.mk_index(T.mk_attr(T.mk_index(S("graph_state.step_state"), S("node.name")), "inputs"), T.mk_index(el[0], T.ZERO)), "delay_dist")
         chk.add("C10.apply", "carried distribution", bool(ok), f"the undelayed input state carries {T.show(prev)[:160] if prev else None}, expected the previous step's ss.inputs[input_name].delay_dist", chk.loc(f_ui, fo_.node))
